@@ -15,7 +15,7 @@ structure DState where
 def emptySt : St :=
   { n := 0, W := [], trajs := [], locks := [], locked := [], locked0 := [], toinitiate := 0, workers := 0,
     cworker := 0, cstep := 0, tsteps := 0, trajNum := 0, frac := [], wts := [], rows := [], occ := [],
-    ensEng := [], seed := 0, entropy := 0, spawned := 0, mainDraws := 0, restarted := false }
+    ensEng := [], seed := 0, entropy := 0, spawned := 0, mainDraws := 0, restarted := false, rgenRestored := false }
 
 def showErr : Err → String
   | .assert => "err:assert" | .value => "err:value" | .index => "err:index" | .key => "err:key"
